@@ -33,6 +33,8 @@ type chainCase struct {
 	Hooked  *bool     `json:"hooked"`
 	CheckW  bool      `json:"checkw"`
 	N       int       `json:"n"`
+	G       int       `json:"g"` // kind "redispatch": number of global middleware (chain = G ++ redispatcher ++ G ++ inner)
+	B       int       `json:"b"` // position of the redispatcher
 }
 
 // recWriter is the underlying http.ResponseWriter: it records every call and can reply with short writes / errors.
@@ -99,6 +101,9 @@ func mkHandler(run **chainRun, h int, script [][]any) rux.HandlerFunc {
 				c.Next()
 			case "catchnext":
 				handlers.PanicsHandler()(c)
+			case "redispatch":
+				c.Req.URL.Path = "/t"
+				c.Router().HandleContext(c)
 			case "abort":
 				c.Abort()
 			case "abortStatus":
@@ -265,6 +270,9 @@ func chainReplay(s *Summary, raw json.RawMessage) {
 	switch {
 	case c.Kind != "route":
 		splits = []chainSplit{{}}
+		if c.Kind == "redispatch" {
+			c.Escaped = nil // the follow-up repetition is not part of this scenario
+		}
 	case n <= 3:
 		splits = allSplits(n - 1)
 	default:
@@ -344,6 +352,21 @@ func chainRunOnce(s *Summary, c *chainCase, sp chainSplit) {
 			r.Use(hs[k/2 : k]...)
 			r.GET("/other", nopHandler)
 			path = "/missing"
+		case "redispatch":
+			// outer route /g/h/x/{id} (dynamic, no middleware of its own): G ++ redispatcher; it re-dispatches to the static
+			// route /t whose chain is G ++ inner. The handlers at the positions b+1..b+g of the model chain ARE the global
+			// middleware again (same handler values).
+			g, b := c.G, c.B
+			r.Use(hs[:g]...)
+			r.GET("/g/h/x/{id}", hs[b-1])
+			inner := hs[b+g:]
+			r.GET("/t", func(cx *rux.Context) {
+				if len(cx.Params) != 0 { // a static route exposes no parameters (C02), also after a re-dispatch
+					cur.log = append(cur.log, []any{"static-route-with-params", len(cx.Params), false})
+				}
+				inner[len(inner)-1](cx)
+			}, inner[:len(inner)-1]...)
+			path = "/g/h/x/7"
 		case "na-default": // all handlers are global middleware around the DEFAULT 405 handler; a custom NotFound is installed too
 			r.Use(hs...)
 			r.NotFound(func(cx *rux.Context) { cur.log = append(cur.log, []any{"in", -2, false}) })
@@ -392,6 +415,13 @@ func chainRunOnce(s *Summary, c *chainCase, sp chainSplit) {
 		return
 	}
 	want := normLog(c.Log)
+	if c.Kind == "redispatch" {
+		for _, e := range want { // positions b+1..b+g of the model chain are the global middleware 1..g again
+			if p, ok := e[1].(int); ok && p > c.B && p <= c.B+c.G {
+				e[1] = p - c.B
+			}
+		}
+	}
 	got := run.log
 	if tok, ok := run.panicV.(*panicToken); run.panicV != nil && !ok {
 		_ = tok
